@@ -377,9 +377,12 @@ def concrete_case(rng):
         dirs = [g0, extra][:rng.randint(1, 2)]
         D = np.array([s.pvalue(p) for p in dirs]).T
         # minimise over x0 + span(D): Q-orthogonal projection
-        A = D.T @ Q @ D
-        t = np.linalg.lstsq(A, -D.T @ (Q @ (x0v - c)), rcond=None)[0]
-        xv = x0v + D @ t
+        # (on an orthonormal basis of the span: with nearly collinear directions the coordinates along D itself are of
+        #  order 1e8 and the optimality conditions are then met to 1e-7 only - Appendix B27)
+        Qb = np.linalg.qr(D)[0]
+        A = Qb.T @ Q @ Qb
+        t = np.linalg.lstsq(A, -Qb.T @ (Q @ (x0v - c)), rcond=None)[0]
+        xv = x0v + Qb @ t
         x, gx, fx = ps.exact_linesearch_step(x0, f, list(dirs))
         s.bind_point(x, xv)
         s._bind_new()
